@@ -22,6 +22,7 @@ type c02File struct {
 	Name    string      `json:"name"`
 	Labels  [][2]string `json:"labels,omitempty"`
 	Content string      `json:"content"` // Go-quoted
+	Take    *int        `json:"take,omitempty"` // the caller stops after this many Scans, then Resets
 }
 type c02Input struct {
 	Kind        string    `json:"kind"` // reader | files
@@ -179,9 +180,22 @@ func c02Reader(o *hx.Out, files []c02File, raw []string, tags ...string) (err er
 		}
 		rd.Reset(strings.NewReader(raw[i]), f.Name, lab...)
 		start := len(ob.recs)
-		for rd.Scan() {
-			if e := ob.add(rd.Result()); e != nil {
-				return e
+		takex := hx.L()
+		if f.Take != nil {
+			// abandon the input after *f.Take records (possibly between the
+			// records queued by one line); the next iteration Resets
+			takex = hx.L(hx.I(*f.Take))
+			o.Count("reset-before-drained")
+			for n := 0; n < *f.Take && rd.Scan(); n++ {
+				if e := ob.add(rd.Result()); e != nil {
+					return e
+				}
+			}
+		} else {
+			for rd.Scan() {
+				if e := ob.add(rd.Result()); e != nil {
+					return e
+				}
 			}
 		}
 		errx := hx.L()
@@ -194,7 +208,7 @@ func c02Reader(o *hx.Out, files []c02File, raw []string, tags ...string) (err er
 			o.Count("io-error")
 		}
 		recs := append([]hx.Sx(nil), ob.recs[start:]...)
-		fsx = append(fsx, hx.L(hx.S(f.Name), hx.List(labx), hx.S(raw[i]), hx.List(recs), errx))
+		fsx = append(fsx, hx.L(hx.S(f.Name), hx.List(labx), hx.S(raw[i]), hx.List(recs), errx, takex))
 	}
 	c := hx.L(hx.I(1), c02Oracle(raw), hx.List(fsx), hx.Bool(ob.stable()))
 	c02Count(o, ob, raw)
@@ -306,7 +320,8 @@ var c02WS = []string{" ", " ", " ", "\t", "  ", "\u00a0", "\u2028", "\v", "\f", 
 var c02Names = []string{"X", "Fib/n=10-8", "é", "Enc/size=1k", "Y-4", "", "\xffz", "a:b"}
 var c02Iters = []string{"1", "100", "20000", "0", "-5", "1e3", "99999999999999999999", "x", "007", "+3", "9223372036854775807", "١"}
 var c02Vals = []string{"1.5", "0", "-0", "NaN", "+Inf", "-inf", "1e400", "12345678901234567890123", "0x1p-2", "1_000", ".", "12", "3.0e-7",
-	"922337203685477580", "922337203685477581", "9223372036854775808", "1e-400", "0x", "5e-324", "١٢"}
+	"922337203685477580", "922337203685477581", "9223372036854775808", "9223372036854775807", "9223372036854775809",
+	"9223372036854775806", "9223372036854775800", "9223372036854775799", "1000000000000000000", "9999999999999999999", "922337203685477579", "1e-400", "0x", "5e-324", "١٢"}
 var c02Units = []string{"ns/op", "MB/s", "B/op", "allocs/op", "widgets", "ns", "é/op", "x\xffy", "sec/op", "MB*ns", "op/ns", "ns/op/ns"}
 var c02Keys = []string{"goos", "pkg", "cpu", "k1", "k2", "k3", "k4", "k5", "é", "ünï", "a-b", "note", "goarch", "k\xffz", "ǆ"}
 var c02KVals = []string{"linux", "v", "x y", "1", "é", "a:b", "\xff", "value with  spaces ", "Unit x k=v", "BenchmarkX 1 1 ns/op"}
@@ -388,7 +403,7 @@ func c02UnitLine(r *hx.Rng) string {
 	forms := []string{"Unit ns/op better=lower", "Unit sec/op better=higher", "Unit sec/op better=lower",
 		"Unit MB/s assume=exact better=higher", "Unit", "Unit ", "Unit x", "Unit x y", "Unit x =v", "Unit x k=", "Units x k=v",
 		"Unit\u00a0x k=v", "Unitx", "U", "Unit x k=v k=v k=w j=1 bad", "Unit\tB/s better=higher", "Unit widgets a=b=c",
-		"Unit ns k=1", "Unit sec k=2", "Unit sec k=1", "Unit é ü=ï", "Unit x\xff k=\xfe", "Unit  x  k=v  "}
+		"Unit ns k=1", "Unit sec k=2", "Unit sec k=1", "Unit ns/op a=1 b=2 c=3", "Unit B/s a=1 a=2 a=1 b", "Unit sec/op b=2 c=4 d=5", "Unit é ü=ï", "Unit x\xff k=\xfe", "Unit  x  k=v  "}
 	return forms[r.Intn(len(forms))]
 }
 
@@ -481,7 +496,7 @@ func c02Labels(r *hx.Rng) [][2]string {
 }
 
 func genC02(o *hx.Out, r *hx.Rng, tier string, replay string) error {
-	o.Rule = "byte-level benchmark texts: lines weighted 40% benchmark / 25% key-value / 10% unit / 25% foreign, 12% of lines mutated (byte deleted / inserted / replaced, incl. invalid UTF-8 and U+00A0/U+2028), separators from ASCII and Unicode white space, LF / CRLF / CRCRLF endings, missing final newline; read (a) through one benchfmt.Reader reused by Reset over 1-3 inputs with arbitrary initial labels and (b) through benchfmt.Files over 1-4 real files with duplicate paths, label=path arguments and missing files; hostile: 1500 distinct keys / units (intern-table eviction), set/delete/re-set key histories, a 70000-byte line. Every result is cloned at Scan time and re-serialised at the end. non-trivial = at least one result record; distinct by input bytes"
+	o.Rule = "byte-level benchmark texts: lines weighted 40% benchmark / 25% key-value / 10% unit / 25% foreign, 12% of lines mutated (byte deleted / inserted / replaced, incl. invalid UTF-8 and U+00A0/U+2028), separators from ASCII and Unicode white space, LF / CRLF / CRCRLF endings, missing final newline; read (a) through one benchfmt.Reader reused by Reset over 1-3 inputs with arbitrary initial labels and (b) through benchfmt.Files over 1-4 real files with duplicate paths, label=path arguments and missing files; hostile: 1500 distinct keys / units (intern-table eviction), set/delete/re-set key histories, a 70000-byte line; the caller of the reused Reader may stop after k Scans (also between the records queued by one Unit line) and Reset. Every result is cloned at Scan time and re-serialised at the end. non-trivial = at least one result record; distinct by input bytes"
 	o.Add(hx.L(hx.I(0), hx.List(unicodeRanges(unicode.IsSpace)), hx.List(unicodeRanges(unicode.IsLower)), hx.List(unicodeRanges(unicode.IsUpper))),
 		map[string]string{"kind": "tables"}, "tables", false)
 
@@ -502,6 +517,25 @@ func genC02(o *hx.Out, r *hx.Rng, tier string, replay string) error {
 			return err
 		}
 	}
+	// directed: Reset while records of one line are still queued
+	multi := []string{
+		"Unit ns/op a=1 b=2 c=3\nBenchmarkX 1 1 ns/op\n",
+		"k: v\nUnit x bad a=1 also-bad b=2\nBenchmarkX 1 1 ns/op\n",
+		"Unit sec/op better=lower\nUnit ns/op better=higher assume=exact x=y\nBenchmarkY 2 2 MB/s\n",
+		"BenchmarkX 1 1 ns/op\nUnit MB/s a=1 a=2 a=3 b=1\n",
+	}
+	nexts := []string{"BenchmarkZ 3 3 ns/op\n", "Unit ns/op a=1 b=3 d=4\nj: w\nBenchmarkZ 3 3 sec/op\n", "", "Unit MB/s a=1 b=1 c=1"}
+	for _, t := range multi {
+		for k := 0; k <= 5; k++ {
+			for _, t2 := range nexts {
+				kk := k
+				files := []c02File{{Name: "first", Content: strconv.Quote(t), Take: &kk}, {Name: "second", Labels: [][2]string{{"k", "lab"}}, Content: strconv.Quote(t2)}}
+				if err := c02Reader(o, files, []string{t, t2}, "reset-mid-line"); err != nil {
+					return err
+				}
+			}
+		}
+	}
 	for i := 0; i < nReader; i++ {
 		nf := 1
 		if r.Chance(0.4) {
@@ -512,7 +546,12 @@ func genC02(o *hx.Out, r *hx.Rng, tier string, replay string) error {
 		for j := 0; j < nf; j++ {
 			t := c02Text(r, o, r.Intn(26))
 			name := []string{"f", "g.txt", "", "dir/é"}[r.Intn(4)]
-			files = append(files, c02File{Name: name, Labels: c02Labels(r), Content: strconv.Quote(t)})
+			cf := c02File{Name: name, Labels: c02Labels(r), Content: strconv.Quote(t)}
+			if j < nf-1 && r.Chance(0.5) {
+				k := r.Intn(6)
+				cf.Take = &k
+			}
+			files = append(files, cf)
 			raw = append(raw, t)
 		}
 		if err := c02Reader(o, files, raw, "random"); err != nil {
@@ -623,7 +662,23 @@ func genC02(o *hx.Out, r *hx.Rng, tier string, replay string) error {
 		if r.Chance(0.3) && len(paths) > 1 {
 			paths[len(paths)-1] = paths[0]
 		}
-		if err := c02Files(o, dir, names, contents, paths, r.Chance(0.6), "files"); err != nil {
+		allow := r.Chance(0.6)
+		if r.Chance(0.25) {
+			// the same file named both as label=path and as a plain path, in either order, with labels allowed
+			p0 := names[r.Intn(len(names))]
+			lab := []string{"L", "", p0, p0 + "#0", "other"}[r.Intn(5)]
+			pair := []string{lab + "=" + p0, p0}
+			if r.Bool() {
+				pair[0], pair[1] = pair[1], pair[0]
+			}
+			if r.Chance(0.4) {
+				pair = append(pair, p0)
+			}
+			paths = pair
+			allow = true
+			o.Count("files:label=path-and-plain")
+		}
+		if err := c02Files(o, dir, names, contents, paths, allow, "files"); err != nil {
 			return err
 		}
 	}
